@@ -64,7 +64,17 @@ func (h *mapHist) rangeOp(name string, inner int) gen.Stmt {
 	h.n++
 	kv := fmt.Sprintf("k%d", h.n)
 	body := []gen.Stmt{printCall(sl("visit"), vr(kv, tStr))}
+	if inner >= 7 { // no loop variable: one round per key that is still present when its turn comes
+		kv = ""
+		body = []gen.Stmt{printCall(sl("round"))}
+	}
 	switch inner {
+	case 7: // delete a later key
+		body = append(body, h.del(name, "c"))
+	case 8: // drain the map in the first round
+		body = append(body, h.del(name, "a"), h.del(name, "b"), h.del(name, "c"), h.del(name, "x y"))
+	case 9: // insert: not visited
+		body = append(body, h.set(name, "end"))
 	case 0: // delete the current key
 		body = append(body, gen.CallStmt{C: call("del", gen.TNone, h.m(name), vr(kv, tStr))})
 	case 1: // insert a new key: must not be visited
@@ -83,7 +93,7 @@ func (h *mapHist) rangeOp(name string, inner int) gen.Stmt {
 	return gen.For{Var: kv, VarT: tStr, Over: h.m(name), Body: body}
 }
 
-const c12NOps = 11
+const c12NOps = 12
 
 // op returns the statements of exhaustive-alphabet operation number o on map name.
 func (h *mapHist) op(name string, o int) []gen.Stmt {
@@ -106,6 +116,9 @@ func (h *mapHist) op(name string, o int) []gen.Stmt {
 	case o == 9:
 		h.c.Cover("op", "range-reinsert")
 		return []gen.Stmt{h.rangeOp(name, 5)}
+	case o == 10:
+		h.c.Cover("op", "range-novar-del-later")
+		return []gen.Stmt{h.rangeOp(name, 7+h.r.Intn(2))}
 	default:
 		h.c.Cover("op", "get-guarded")
 		return []gen.Stmt{h.get(name, c12Keys[h.r.Intn(3)], true)}
@@ -125,7 +138,7 @@ func init() {
 	core.Register(&core.Check{
 		ID:    "C12",
 		Level: "exploration",
-		Rule: "map histories as Evy programs whose printed observations (map, len, has of every key, visited keys, lookups) are compared with an insertion-ordered dictionary model: all histories up to length 3 (quick) / 4 (thorough) over an 11-operation alphabet on 3 keys (set, delete, four kinds of mutation while ranging over the same map, guarded lookup), plus random histories up to length 14 with non-identifier keys, aliases (second name, map inside an array, map inside any), missing-key lookups and ==/!= between maps built in different orders with deep values; distinct = distinct canonical program texts",
+		Rule: "map histories as Evy programs whose printed observations (map, len, has of every key, visited keys, lookups) are compared with an insertion-ordered dictionary model: all histories up to length 3 (quick) / 4 (thorough) over a 12-operation alphabet on 3 keys (set, delete, five kinds of mutation while ranging over the same map with and without loop variable, guarded lookup), plus random histories up to length 14 with non-identifier keys, aliases (second name, map inside an array, map inside any), missing-key lookups and ==/!= between maps built in different orders with deep values; distinct = distinct canonical program texts",
 		Assumptions: []string{"sequential model: ref.Map (ordered keys + dictionary) in harness/ref; the history is a single program so the order of operations is total"},
 		NumCases: func(tier string) int {
 			if tier == "thorough" {
@@ -212,7 +225,7 @@ func c12Run(c *core.Ctx, i int) {
 			h.stmts = append(h.stmts, h.get(name, key, true))
 			c.Cover("op", "get-guarded")
 		case 6, 7:
-			inner := r.Intn(7)
+			inner := r.Intn(10)
 			h.stmts = append(h.stmts, h.rangeOp(name, inner))
 			c.Cover("op", fmt.Sprintf("range-inner-%d", inner))
 		case 8:
